@@ -4,9 +4,9 @@ package main
 
 import (
 	"fmt"
-	"os"
 	"go/token"
 	"go/types"
+	"os"
 	"sort"
 	"strings"
 
@@ -137,7 +137,9 @@ func (x *ctx) callStatic(st *state, fr *frame, callee *ssa.Function, bind []val,
 	if outs, ok := x.model(st, fr, key, callee, args, rt); ok {
 		return outs
 	}
-	if con := x.w.contracts[key]; con != nil && callee.Parent() == nil && !(x.spec > 0 && con.Flags["inline"]) {
+	if con := x.w.contracts[key]; con != nil && callee.Parent() == nil && !(x.spec > 0 && con.Flags["inline"]) &&
+		!(x.con != nil && x.con.Flags["bodies"] && con.Flags["assumed"] && con.PkgPath == x.con.PkgPath) {
+		// (a `bodies` harness executes the real code of its own package instead of the assumed contracts)
 		if x.spec > 0 && !con.Flags["pure"] {
 			// real functions called from specifications are inlined (they must be side-effect free)
 			return x.inline(st, fr, callee, bind, args)
@@ -792,7 +794,7 @@ func (x *ctx) contractCall(st *state, fr *frame, con *Contract, callee *ssa.Func
 		}
 	}
 	pre := st.clone()
-	if x.spec == 0 && len(con.Cbs) > 0 {
+	if x.spec == 0 && (len(con.Cbs) > 0 || hasFuncParam(callee)) {
 		x.callbackConformance(pre.clone(), fr, con, callee, args, env)
 	}
 	// level-1 closures are evaluated in the pre-state
@@ -865,7 +867,11 @@ func (x *ctx) contractCall(st *state, fr *frame, con *Contract, callee *ssa.Func
 			l2 := x.applyClosure(st, p.l1, nil, env)
 			l3 := x.applyClosure(st, l2, nil, env)
 			r := x.applyClosure(st, l3, p.cl.P3, renv)
-			st.assume(r.t.s)
+			if x.spec > 0 {
+				st.define(r.t.s) // inside a specification the callee is pure: its ensures only describe the fresh result
+			} else {
+				st.assume(r.t.s)
+			}
 			continue
 		}
 		if mid1 == nil {
@@ -888,7 +894,11 @@ func (x *ctx) contractCall(st *state, fr *frame, con *Contract, callee *ssa.Func
 		l3 := x.applyClosure(mid2, l2, nil, env)
 		copyBack(mid2, n2)
 		r := x.applyClosure(st, l3, p.cl.P3, renv)
-		st.assume(r.t.s)
+		if x.spec > 0 {
+			st.define(r.t.s) // inside a specification the callee is pure: its ensures only describe the fresh result
+		} else {
+			st.assume(r.t.s)
+		}
 	}
 	for name, spec := range con.Cbs {
 		if strings.HasPrefix(name, "result:") {
@@ -1708,11 +1718,11 @@ func (x *ctx) havocLoop(st *state, fr *frame, b *ssa.BasicBlock) {
 }
 
 type modSet struct {
-	skipCb bool  // own footprint: the effects of callbacks under contract are left out
-	st    *state // state at the loop head (resolves function values held in captured variables)
-	keys  map[string]bool
-	cells map[int]bool
-	all   bool
+	skipCb bool   // own footprint: the effects of callbacks under contract are left out
+	st     *state // state at the loop head (resolves function values held in captured variables)
+	keys   map[string]bool
+	cells  map[int]bool
+	all    bool
 	// row-wise writes: heap key -> base values (objects / slices / maps) whose row is written; only used when the
 	// base is defined outside the loop
 	rows   map[string][]ssa.Value
@@ -1724,7 +1734,7 @@ type lazyRow struct {
 	key  string
 	cell ssa.Value // Alloc / FreeVar holding the base
 	fa   *ssa.FieldAddr
-	dep string // heap key of the field that is loaded; must not be written in the loop
+	dep  string // heap key of the field that is loaded; must not be written in the loop
 }
 
 // rowWrite records a write to the row of base in key; falls back to the whole key when base varies in the loop.
@@ -2023,6 +2033,25 @@ func (x *ctx) callMods(fr *frame, c *ssa.CallCommon, ms *modSet, depth int) {
 		x.contractMods(con, con.Mods, ms)
 		return
 	}
+	if key == "encoding/gob.Decoder.Decode" && len(c.Args) == 2 {
+		// the decoder writes through the pointer it is given
+		tv := c.Args[1]
+		if mi, ok := tv.(*ssa.MakeInterface); ok {
+			tv = mi.X
+		}
+		if r, ok := fr.regs[tv]; ok && r.ptr != nil && r.ptr.cell > 0 {
+			ms.cells[r.ptr.cell] = true
+		} else if pt, ok := tv.Type().Underlying().(*types.Pointer); ok {
+			if _, leaf := x.leafSort(pt.Elem()); leaf {
+				ms.keys["deref."+leafKey(x, pt.Elem())] = true
+			} else {
+				x.addLeafKeys(structName(pt.Elem()), pt.Elem(), ms)
+			}
+		} else {
+			ms.all = true
+		}
+		return
+	}
 	if keys, ok := x.modelModKeys(key, callee, c); ok {
 		for _, k := range keys {
 			ms.keys[k] = true
@@ -2160,8 +2189,36 @@ func (x *ctx) callbackConformance(st *state, fr *frame, con *Contract, callee *s
 		}
 	}
 	sort.Strings(names)
+	// function-typed parameters without a callback contract are verified in the callee under the user-callback rule
+	// (heap unchanged, A-callbacks). A caller that passes one of the repository's own closures or methods for such a
+	// parameter owes the proof that the value really leaves the heap unchanged: an empty callback contract.
+	pure := map[string]*CbSpec{}
+	if callee != nil {
+		for i, p := range callee.Params {
+			if _, isFn := p.Type().Underlying().(*types.Signature); !isFn || i >= len(args) || i >= len(con.Params) {
+				continue
+			}
+			pn := con.Params[i]
+			if con.Cbs[pn] != nil || args[i].fn == nil || !x.w.isRepoPkg(args[i].fn) || con.Flags["assumed"] {
+				continue
+			}
+			if af := args[i].fn; af.Synthetic != "" && strings.HasPrefix(af.Synthetic, "bound method wrapper") {
+				if fo, ok := af.Object().(*types.Func); ok {
+					if _, isIface := fo.Type().(*types.Signature).Recv().Type().Underlying().(*types.Interface); isIface {
+						continue // a method value of a user-supplied interface (loader.Load): user callback
+					}
+				}
+			}
+			pure[pn] = &CbSpec{Name: pn}
+			names = append(names, pn)
+		}
+	}
 	for _, name := range names {
 		spec := con.Cbs[name]
+		isPure := false
+		if spec == nil {
+			spec, isPure = pure[name], true
+		}
 		idx := -1
 		for i, p := range con.Params {
 			if p == name {
@@ -2281,6 +2338,9 @@ func (x *ctx) callbackConformance(st *state, fr *frame, con *Contract, callee *s
 		x.paths = savePaths
 		site := shortTarget(con.Target) + ":" + name
 		exempt := func(k string) bool {
+			if isPure && strings.HasPrefix(k, "G:calls_") {
+				return true // invocation logs of the user callbacks that the value itself calls
+			}
 			return k == "G:calls_"+name || strings.HasPrefix(k, "G:calls_") && a.fn != nil && k == "G:calls_"+a.fn.Name()
 		}
 		penv := func(n string, t types.Type) (val, bool) {
@@ -2301,7 +2361,11 @@ func (x *ctx) callbackConformance(st *state, fr *frame, con *Contract, callee *s
 				continue
 			}
 			x.siteCtx = saveSite
-			x.frameCheck(o.st, Spre, Spre, con, spec.Mods, penv, o.ret, "callback-frame["+site+"]", exempt)
+			kindName := "callback-frame[" + site + "]"
+			if isPure {
+				kindName = "user-callback-pure[" + site + "]"
+			}
+			x.frameCheck(o.st, Spre, Spre, con, spec.Mods, penv, o.ret, kindName, exempt)
 			for _, p := range pends {
 				l2 := x.applyClosure(o.st, p.l1, nil, cenv(p.cl))
 				l2 = x.applyClosure(o.st, l2, nil, cenv(p.cl))
@@ -2320,7 +2384,6 @@ func (x *ctx) callbackConformance(st *state, fr *frame, con *Contract, callee *s
 		x.siteCtx, x.allocFrom = saveSite, saveFrom
 	}
 }
-
 
 // fnValOf resolves a function-typed SSA value without executing: a bound register, or a load of a captured / local
 // variable whose cell is known.
@@ -2361,7 +2424,6 @@ func userCallbackValue(v ssa.Value) bool {
 	}
 	return false
 }
-
 
 // cbInvariant returns an evaluator of the conjunction of the `site NAME: callback-invariant` clauses that the function
 // under verification declares for calls of con's function (nil when there are none or no call site is active).
@@ -2557,7 +2619,6 @@ func (x *ctx) ownFootprint(st *state, fr *frame, con *Contract, penv envFn) {
 	}
 }
 
-
 // paramOf resolves an SSA value to the parameter of the verified function that it certainly denotes: the parameter
 // itself, or a load of the variable it was spilled to (a captured parameter) provided that variable is assigned once.
 func (x *ctx) paramOf(v ssa.Value) *ssa.Parameter {
@@ -2646,4 +2707,16 @@ func (x *ctx) storedInClosures(a *ssa.Alloc) bool {
 		return false
 	}
 	return visit(x.fn, a)
+}
+
+func hasFuncParam(fn *ssa.Function) bool {
+	if fn == nil {
+		return false
+	}
+	for _, p := range fn.Params {
+		if _, ok := p.Type().Underlying().(*types.Signature); ok {
+			return true
+		}
+	}
+	return false
 }
